@@ -151,6 +151,11 @@ def build_task(mod, ts, tasks, outs, created, extra):
     if hs:
         kw["hs"] = hs
     t = getattr(mod, ts["cls"])(**kw)
+    if ts.get("copy") and not pre and not explicit:
+        # another public way to obtain the task object: copyconfig(base, k=…) — the copy must embed the same upstream values
+        from experimaestro import copyconfig
+        created.append(t)      # the base object stays in the graph (never submitted)
+        t = copyconfig(t, k=ts["k"])
     created.append(t)
     if pre:
         t.add_pretasks(*pre)
@@ -184,10 +189,16 @@ def main():
                         producer_before = dict(producer)
                         # the graph as `submit` sees it (a pass-through task re-marks an embedded output afterwards)
                         snap_index = {id(o): i for i, o in enumerate(created)}
-                        snap_nodes = cfgbuild.model_graph(created)
-                        snap_nodes[snap_index[id(t)]]["init"] = [snap_index[id(x)] for x in init]   # submit(init_tasks=…)
-                        snapshots.append((snap_nodes, snap_index[id(t)],
-                                          sorted({snap_index[id(tasks[e[1]])] for e in ts["embeds"] if e[0] == "explicit"})))
+                        try:
+                            snap_nodes = cfgbuild.model_graph(created)
+                            snap_nodes[snap_index[id(t)]]["init"] = [snap_index[id(x)] for x in init]   # submit(init_tasks=…)
+                            snapshots.append((snap_nodes, snap_index[id(t)],
+                                              sorted({snap_index[id(tasks[e[1]])] for e in ts["embeds"] if e[0] == "explicit"})))
+                        except KeyError:
+                            # the task embeds an object nobody built (a copy made by the code under test): no graph for the model,
+                            # the monitors on expected / actual dependencies still apply
+                            snapshots.append(None)
+                            rec["foreign_objects"] = True
                         import io, contextlib
                         with contextlib.redirect_stderr(io.StringIO()):
                             o = t.submit(init_tasks=init) if init else t.submit()
@@ -209,7 +220,8 @@ def main():
                             if e[0] != "explicit" and outs[e[1]] is not tasks[e[1]]:
                                 exp |= extra.get(e[1], set())
                         rec["expected"].append(sorted(exp))
-                    for i, (nodes, tn, explicit) in enumerate(snapshots):
+                    for i, snap in enumerate(snapshots if all(x is not None for x in snapshots) else []):
+                        nodes, tn, explicit = snap
                         rec["lines"].append({"op": "graph", "nodes": nodes})
                         rec["impl"].append({"ok": True})
                         rec["lines"].append({"op": "deps", "n": tn, "explicit": explicit})
